@@ -1,6 +1,114 @@
-"""Stream B — the deterministic case set (independent of VERIF_SEED), DESIGN §4.3.  Placeholder until built:
-records that it did not run."""
+"""Stream B — the deterministic case set (independent of VERIF_SEED), DESIGN §4.3.
+
+(1) corpus/engine/*.json : minimised witnesses of known findings and regressions (run first);
+(2) the frozen generator harness/streamb_gen.py (all flavours, full alphabet, re-used names), indices 0..N-1.
+A rejected case whose id is listed (status open) in known_findings.json prints KNOWN-FINDING; any other
+rejected case is a VIOLATION.  The list is never written at run time (harness/tools_known.py builds it).
+"""
+import glob
+import json
+import os
+
+from . import enginecheck as EC
+from . import explore as X
+from . import framework as fw
+
+# per property: the monitor mode under which the Stream B cases are judged, the generator families and sizes
+PLAN = {
+    "C01": dict(mode=dict(origin=None, check_spec=False, no_conflicted=False, cov_every_step=False),
+                families=[("sb_one", 2000, 30000), ("sb_two", 2000, 30000)], ignore={10}),
+    "C02": dict(mode=dict(origin=None, check_spec=False, no_conflicted=False, cov_every_step=False),
+                families=[("sb_two", 3000, 30000)], only={6, 10}),
+    "C03": dict(mode="own", families=[("sb_one", 3000, 30000)], ignore={10}),
+    "C04": dict(mode=None, families=[]),
+    "C12": dict(mode=dict(origin=None, check_spec=False, no_conflicted=False, cov_every_step=False),
+                families=[("sb_one", 1500, 20000), ("sb_two", 1500, 20000)], only={2, 3}),
+}
+
+
+def case_key(prop, case):
+    c = {k: v for k, v in case.items() if k not in ("_id",)}
+    return fw.case_id(dict(property=prop, case=EC.jsonable_case(c)))
+
+
+def apply_mode(prop, case):
+    plan = PLAN[prop]
+    if plan["mode"] not in (None, "own"):
+        case = dict(case, mode=dict(plan["mode"]))
+    return case
+
+
+def relevant(prop, code):
+    plan = PLAN[prop]
+    if "only" in plan:
+        return code in plan["only"]
+    return code not in plan.get("ignore", set())
+
+
+def run_family(ctx_seed_unused, prop, fam, n, procs=16):
+    """-> (stats, [(case(with mode), verdict, descr, tail)]) for the relevant rejections"""
+    class _C:
+        seed = 0
+    st, fails = X.explore(_C, fam, n, runner="run_streamb_" + prop, procs=procs)
+    return st, [f for f in fails if relevant(prop, f[1][1])]
+
+
+def corpus_cases(prop):
+    out = []
+    d = os.path.join(fw.VERIF, "corpus", "engine")
+    for f in sorted(glob.glob(os.path.join(d, "*.json"))):
+        j = json.load(open(f))
+        if prop in j.get("properties", []):
+            out.append((os.path.basename(f), j))
+    return out
 
 
 def run(ctx, prop, streams, what):
-    streams["stream_b"] = dict(runs=0, note="deterministic unrestricted set not built yet")
+    from . import engine as E
+    from . import families as F
+    plan = PLAN.get(prop)
+    known_ids = {}
+    for k in ctx.known:
+        if k.get("status", "open") == "open":
+            for cid in k.get("case_ids", []):
+                known_ids[cid] = k
+    info = dict(corpus=0, generated=0, rejected=0, known=0, version=None)
+    # ---- (1) corpus
+    E.install()
+    mon = fw.ModelProc("monitor")
+    for name, j in corpus_cases(prop):
+        case = EC.unjson_case(j["case"])
+        runner = getattr(F, j.get("runner") or "", None) or EC.run_case
+        res = runner(case, mon)
+        info["corpus"] += 1
+        if res.verdict != []:
+            info["rejected"] += 1
+            cid = fw.case_id(dict(corpus=name))
+            if cid in known_ids:
+                info["known"] += 1
+                ctx.known_finding_seen(known_ids[cid])
+            else:
+                ctx.violation("%s [corpus %s]: %s" % (what, name, EC.describe(res)),
+                              dict(kind="engine-run", corpus=name, case=j["case"], guard=EC.GUARDS.get(res.verdict[1])))
+    mon.close()
+    # ---- (2) frozen generator
+    if plan and plan["families"]:
+        from . import streamb_gen
+        info["version"] = streamb_gen.VERSION
+        for fam, nq, nt in plan["families"]:
+            n = nq if ctx.quick else nt
+            st, fails = run_family(None, prop, fam, n)
+            info["generated"] += st["runs"]
+            unknown = []
+            for case, verdict, descr, tail in fails:
+                info["rejected"] += 1
+                cid = case_key(prop, EC.unjson_case(case))
+                if cid in known_ids:
+                    info["known"] += 1
+                    ctx.known_finding_seen(known_ids[cid])
+                else:
+                    unknown.append((case, verdict, descr, tail))
+            runner = getattr(F, "run_streamb_" + prop)
+            X.report_failures(ctx, unknown, runner=runner, what=what + " [Stream B %s]" % fam)
+    streams["stream_b"] = info
+    ctx.coverage["evaluations_stream_b"] = info["corpus"] + info["generated"]
